@@ -511,8 +511,21 @@ pub fn step(w: &mut Option<World>, line: &str) -> (String, String) {
         "knn" => {
             // k-NN through the real engine; the annotated line carries what the two tiers return
             // for this query right now (the merge model's inputs).  `ef` given => cache bypassed.
-            let (Some(q), Some(k)) = (vec_field(&fs, "q"), nat(&fs, "k")) else { return bad() };
+            let (Some(q0), Some(k)) = (vec_field(&fs, "q"), nat(&fs, "k")) else { return bad() };
             let k = k as usize;
+            // the engine normalises an out-of-band query for Cosine/InnerProduct before it asks the
+            // tiers; same arithmetic here (the SIMD kernels are the build-time copy of simd.rs)
+            let q: Vec<f32> = if matches!(w.metric, DistanceMetric::Cosine | DistanceMetric::InnerProduct) && !q0.is_empty() {
+                let ns = crate::mem::sum_squares(&q0);
+                if ns > f32::EPSILON && !(0.98f32..=1.02f32).contains(&ns) {
+                    let inv = 1.0 / ns.sqrt();
+                    q0.iter().map(|x| x * inv).collect()
+                } else {
+                    q0.clone()
+                }
+            } else {
+                q0.clone()
+            };
             let ef = nat(&fs, "ef").map(|x| x as usize);
             let scope = nat(&fs, "scope").unwrap_or(0);
             let hot = w.engine.hot_tier();
@@ -547,7 +560,7 @@ pub fn step(w: &mut Option<World>, line: &str) -> (String, String) {
                 .map(|r| format!("{}:{}:{}", r.doc_id, key(r.distance), r.distance.to_bits()))
                 .collect();
             let hot_ids: Vec<u64> = w.ids.iter().copied().filter(|&id| hot.exists(id)).collect();
-            let r = w.engine.knn_search_with_ef_detailed_scoped(&q, k, ef, scope);
+            let r = w.engine.knn_search_with_ef_detailed_scoped(&q0, k, ef, scope);
             let out = match r {
                 Ok((res, path)) => format!(
                     "ok path={:?} res={}",
@@ -565,7 +578,8 @@ pub fn step(w: &mut Option<World>, line: &str) -> (String, String) {
             };
             (
                 format!(
-                    "knn q={} k={} ef={} scope={} hot={} cold={} hotset={}",
+                    "knn q={} qn={} k={} ef={} scope={} hot={} cold={} hotset={}",
+                    show_vec(&q0),
                     show_vec(&q),
                     k,
                     ef.map(|e| e.to_string()).unwrap_or_else(|| "-".into()),
